@@ -27,10 +27,11 @@ CONSTS = [0, 1, 0, 1, 2, 3, -1, 0.5, -2, 1.5, 2.5, 0, 1, 2, -1, 2e-9, 4e5]  # in
 
 
 @st.composite
-def cases(draw):
-    env = draw(gen.envs())
+def cases(draw, tier="quick"):
+    big = tier == "thorough"
+    env = draw(gen.envs(max_vec=10 if big else 6, max_mat=4 if big else 3))
     g = gen.G(draw, env, gen.Cfg(consts=CONSTS, leaf_const_w=3))
-    recipe = g.S(draw(st.integers(1, 4)))
+    recipe = g.S(draw(st.integers(1, 5 if big else 4)))
     used = sorted(gen.used_vars(recipe, env))
     allv = all_var_names(env)
     if used and draw(st.integers(0, 4)) > 0:
@@ -43,7 +44,7 @@ def cases(draw):
 
 
 def strategy(tier):
-    return cases()
+    return cases(tier)
 
 
 def sample_repr(case):
